@@ -14,7 +14,8 @@ RULE = ("case = history in a fresh Cello Thread (own collector): managed / root 
         "the block), 52 bytes and 1 MiB (far-away mmap addresses), library objects (containers, Thread objects) built directly "
         "or retyped by assign / copy, explicit del/del_root/del_raw, dropping references, forced collections, churn "
         "(threshold collections, growth and shrink rehash), Boxes swept together with their pointees and garbage Boxes whose "
-        "pointee is still registered (removals and shrink rehash during a sweep), stop/start windows with allocations (never "
+        "pointee is still registered (removals and shrink rehash during a sweep), objects whose destructor allocates managed "
+        "objects (insertions and growth rehash during a sweep or inside del; up to 3 generations), stop/start windows with allocations (never "
         "registered) and deletions of registered and unregistered objects inside. "
         "After EVERY op the executor compares the registry with its own ledger through the CELLO_VERIF accessor: mem(gc,p) <=> "
         "p allocated managed/root while running and neither deleted nor finalised (checked for all live and all dead addresses "
@@ -42,6 +43,9 @@ def _case(draw):
     n = draw(st.integers(3, 60))
     churn_next = 10000
     nbig = 0
+    born_next = 50000
+    allow_d = draw(st.booleans())
+    has_d = False      # objects whose destructor allocates are never finalised while the collector is stopped
     nodes = set()
     stopped = False
     window_objs = []
@@ -49,7 +53,7 @@ def _case(draw):
     res_pool = draw(st.lists(st.integers(0, 400), min_size=1, max_size=3))
     for _ in range(n):
         o = draw(st.sampled_from(["new", "new", "new", "newa", "newa", "newa", "newx", "del", "del", "drop", "collect", "churn", "box", "burst",
-                                  "rootburst", "copy", "lib", "stop", "start", "boxlive"]))
+                                  "rootburst", "copy", "lib", "stop", "start", "boxlive", "dburst"]))
         if o in ("new", "newa", "newx"):
             cls = draw(st.sampled_from(["m", "m", "m", "root", "raw"]))
             nobj += 1
@@ -140,7 +144,20 @@ def _case(draw):
                     ops.append(["stk", slot, nobj])
             else:
                 rootraw.append(nobj)
-        elif o == "stop" and not stopped:
+        elif o == "dburst" and not stopped and allow_d:
+            # objects whose destructor allocates 1..4 managed (ledger-tracked) objects, up to 3 generations: insertions
+            # (and growth rehashes) while a sweep is finalising its pending list / while del is removing an entry
+            how = draw(st.sampled_from(["collect", "del", "none"]))
+            for _ in range(draw(st.integers(1, 12))):
+                nobj += 1
+                ops.append(["new", nobj, "noded", "m", draw(st.integers(1, 4)), born_next, draw(st.sampled_from([1, 1, 2, 3]))])
+                born_next += 8
+                if how == "del":
+                    ops.append(["del", nobj])
+            has_d = True
+            if how == "collect":
+                ops.append(["collect"])
+        elif o == "stop" and not stopped and not has_d:
             ops.append(["stop"])
             stopped = True
         elif o == "start" and stopped:
@@ -198,6 +215,8 @@ def encode(case):
                     lines.append("new %d nodea %s %d" % (op[1], op[3], res))
             elif op[2] == "box":
                 lines.append("new %d box %s %d" % (op[1], op[3], op[4]))
+            elif op[2] == "noded":
+                lines.append("new %d noded %s %d %d %d" % (op[1], op[3], op[4], op[5], op[6]))
             else:
                 if len(op) > 4 and str(op[4]).startswith("retype"):
                     lines.append("retype %s" % op[4][6:])
@@ -301,6 +320,8 @@ def run_case(ctx, case):
         if op[0] in ("new", "alloc"):
             if op[2] in ("nodez", "nodeo", "nodeb"):
                 cls.add("size=" + {"nodez": "0", "nodeo": "52", "nodeb": "1MiB"}[op[2]])
+            elif op[2] == "noded":
+                cls.add("destructor-allocates")
             elif op[2] not in ("node", "nodea", "box"):
                 cls.add("library-object")
             if op[0] == "alloc":
